@@ -30,6 +30,8 @@ claimed = {
          "string fields (CALL method name, error type, leader host) are excluded from the value round trip (strings.Trim not modelled); server-side hand-inlined codecs, text parser chunk independence and text<->binary equivalence not yet under contract", "4/C14"),
  "C20": ("proof", "the three segmented array deques of server/queue.go (LockQueue, LockCommandQueue, LockManagerQueue): representation invariant qInv established by the constructor and preserved by Push, PushLeft, Pop, PopRight, Reset and Rellac; each of these, and Head, Tail, IterNodes, IterNodeQueues, is proved against the abstract view (the cells between the head and tail cursors in node-major order): which cell receives or yields the element, where the cursors move (including every node-boundary crossing and node allocation), and that every other cell keeps its element; Len exact while the cursors are at most one node apart",
          "Resize, Restructuring, Shrink and freeQueue are NOT under contract (Resize leaves allocated nodes above nodeIndex, outside qInv, so the proofs cover queues on which these four have not been applied); the key-level queues built on top (LockManagerLockQueue, LockManagerWaitQueue, ring and priority ring queues, LongWaitLockQueue) keep trusted contracts; Len beyond two nodes is not proved equal to the element count (32-bit sum); fewer than 2^30 nodes is assumed by the growing operations; encapsulation (no code outside the methods writes the fields) is not checked; constructor arguments at call sites are assumed to satisfy C20.ctor", "4/C20"),
+ "C08": ("proof", "reader side of crash recovery: AofFile.ReadLock hands a record to the replayer only if every byte of the length it decoded was delivered by the file in this call (ghost count of delivered bytes), ReadLockData likewise for the 4-byte length and the whole value (loop invariants over partial reads), LoadAofFile keeps the record stream and the value stream in step (the value of every data-bearing record is consumed before the next record is read, loop invariant over ghost record numbers); Open in append mode is required to leave the file on the 64-byte grid - this obligation fails on the pinned tree and is a recorded known finding; the ReadLock defect found by its obligation is repaired (fix commit)",
+         "assumed: bufio.Reader over *os.File delivers 0..len(p) bytes and reports an error only with zero bytes; the replay callback of LoadAofFile neither reads the files nor rewrites the decoded record; writer side (Flush writes records before values, Sync, torn value file after a crash between the two writes), 'some prefix' as a statement about the persisted history, and the second-restart clause are outside what a per-function contract decides here", "4/C08"),
  "C12": ("proof", "CompareAofId equals the specified log-position order for all 2^256 input pairs; acceptor handlers (remote and self proposal/commit): accepted and committed numbers never decrease, a proposal is accepted only above both and only while no commit is outstanding, a commit only for exactly the accepted number, once, and the reply is an ack iff the state changed; DoVote only ever selects a data-bearing member of non-zero weight (loop invariant); vote/proposal/commit succeed only with len(members)/2+1 answers",
          "one handler call at a time under voter.glock (any delivery order is a sequence of such calls); maximality of the chosen log position in DoVote, durability across restart (ArbiterStore) and the announcement/offline clearing steps are not under contract; transport and kill -9 outside; slice capacities are assumed <= 2^62", "4/C12"),
 }
